@@ -114,7 +114,7 @@ def vh(ctx, args, stdin=None, timeout=3600, check=True, env_extra=None):
 # ---------------------------------------------------------------- TLC
 
 RE_STATES = re.compile(r"(\d+) states generated, (\d+) distinct states found, (\d+) states left on queue")
-RE_COV = re.compile(r"^<(\w+) line (\d+), col (\d+) to line (\d+), col (\d+) of module (\w+)>: (\d+):(\d+)")
+RE_COV = re.compile(r"^<(\w+) line (\d+), col (\d+) to line (\d+), col (\d+) of module (\w+)(?: \([\d ]+\))?>: (\d+):(\d+)")
 RE_PRINT = re.compile(r'^<<"(\w+)", "(.*)">>$')
 RE_SIM = re.compile(r"The number of states generated: (\d+)")
 
@@ -170,8 +170,8 @@ def run_tlc(ctx, module, cfg=None, workers=8, timeout=1800, simulate=None, depth
             res["generated"] = int(m.group(1))
             res["distinct"] = max(res["distinct"], 0)
         m = RE_COV.match(line)
-        if m and m.group(1) in ("Action", "Init"):
-            key = f"{m.group(6)}:{m.group(2)}"
+        if m:
+            key = f"{m.group(6)}!{m.group(1)}@{m.group(2)}"
             res["coverage"][key] = res["coverage"].get(key, 0) + int(m.group(8))
         m = RE_PRINT.match(line)
         if m and m.group(1) in tags:
@@ -182,7 +182,7 @@ def run_tlc(ctx, module, cfg=None, workers=8, timeout=1800, simulate=None, depth
     elif "Error: Action property" in out or "is violated" in out and "Error:" in out:
         m2 = re.search(r"Error: Action property (\S+)", out)
         res["violated"] = m2.group(1) if m2 else "property"
-    elif re.search(r"Error: .*POSTCONDITION|Postcondition .* violated|Error: Evaluating the postcondition", out, re.I):
+    elif re.search(r"Postcondition .* is false|Postcondition .* violated|Error: Evaluating the postcondition", out, re.I):
         res["violated"] = "POSTCONDITION"
     elif "Temporal properties were violated" in out:
         res["violated"] = "temporal"
